@@ -33,6 +33,7 @@ def run(rep):
     res2 = dtchecks.run_dt2(rep, rep.tier, ["BandWiringOK", "OrientOK", "FwdPyramidOK", "FwdAlignOK"], {"fwd"})
     dtchecks.forward_replay(rep, fnd, tab, res2.records, "C03")
     dtchecks.numeric_forward(rep, fnd, "C03", rep.tier)
+    dtchecks.reuse_walk_dt(rep, "C03", rep.tier, "forward")     # ONE forward module along a walk of (batch, channels, size)
     stagetrace.validate_dtcwt(rep, "C03", rep.tier, "DTCWTForward")
     from .. import scalechecks
     scalechecks.dtcwt(rep, "C03", rep.tier, "forward")          # large inputs (size thresholds)
